@@ -70,14 +70,23 @@ Example C19fw_pa_fill_null_ex :
   a_cells (pc_fill_null ref_kernels (mk_arr TInt [Some 2; None]) (Some (mk_py KFloat (7#2)))) = [Some 2; Some (inject_Z 3)].
 Proof. split; reflexivity. Qed.
 
-(* the early return of _perform_imputation only fires on an EMPTY column (pc.count counts the entries of pc.is_null) *)
-Theorem C19fw_pa_early_return_only_on_empty : forall c, pa_early_return c = true <-> c = [].
+(* the early return of _perform_imputation (`source_column.null_count == 0`, /repo 505d3c3) fires exactly when the column
+   holds no missing value *)
+Theorem C19fw_pa_early_return_iff_no_null : forall c, pa_early_return c = true <-> has_null c = false.
 Proof. exact pa_early_return_iff. Qed.
-Print Assumptions C19fw_pa_early_return_only_on_empty.
+Print Assumptions C19fw_pa_early_return_iff_no_null.
+(* PRE-FIX text (regression witness of the repaired finding C19-pyarrow-early-return-never-fires, not the code any more):
+   `pc.count(pc.is_null(column)) == 0` only fired on an EMPTY column (pc.count counts the entries of pc.is_null) *)
+Theorem C19fw_pa_early_return_old_only_on_empty : forall c, pa_early_return_old c = true <-> c = [].
+Proof. exact pa_early_return_old_iff. Qed.
+Print Assumptions C19fw_pa_early_return_old_only_on_empty.
 
 (* FULL STATEMENT (does not hold): forall m a, ..., pa_perform K m ck None a = Some r /\ a_cells r = impute_spec m (a_cells a).
-   known finding C19-pyarrow-early-return-never-fires; domain kf_pa_string_stat: mean / median of a string column
-   (with a null every framework raises; WITHOUT a null the spec, pandas and PythonDict return the column). *)
+   Domain kf_pa_string_stat (narrowed by 505d3c3 from "string column" to "string column THAT HOLDS A NULL"): mean / median
+   of such a column raise on PyArrow (no string kernel) and on pandas; the untyped spec denotes the statistic of the
+   order-preserving codes, which no framework computes -- the boundary of the spec.  The real frameworks differ from each
+   other only in a part of it (PythonDict returns an all-null column / fills with the middle string for an odd number of
+   strings): open finding C19-string-stat-with-null-pydict-computes. *)
 Theorem C19fw_pa_impute_partial : forall K, pa_contracts K -> forall m ck g a, (g = None \/ g = Some []) -> wt_arr a ->
   (forall k, m = IConst k -> const_ok (a_ty a) (mk_py ck k) = true) -> kf_pa_string_stat m a = false ->
   exists r, pa_perform K m ck g a = Some r /\ a_cells r = impute_spec m (a_cells a).
@@ -101,14 +110,44 @@ Example C19fw_pa_grouped_ex :
   wt_arr a.
 Proof. repeat split. intros _ x H. cbn in H. repeat (destruct H as [H|H]; [inversion H; reflexivity|]); try discriminate. contradiction. Qed.
 
+(* inside the remaining domain: ['a', null, 'a', 'b'] median (plain), mean (grouped); the all-null string column *)
 Theorem C19fw_pa_string_stat_refuted :
-  let a := mk_arr TStr [Some 2; Some 1; Some 3] in
-  kf_pa_string_stat IMean a = true /\ pa_perform ref_kernels IMean KStr None a = None /\
-  pa_perform ref_kernels IMedian KStr (Some [[Some 1%Z; Some 1%Z; Some 2%Z]]) a = None /\
-  impute_spec IMean (a_cells a) = a_cells a /\ py_perform_imputation IMean None (a_cells a) = a_cells a /\
-  has_null (a_cells a) = false.
+  let a := mk_arr TStr [Some 1; None; Some 1; Some 2] in
+  let z := mk_arr TStr [None; None] in
+  let g := Some [[Some 1%Z; Some 1%Z; Some 1%Z; Some 2%Z]] in
+  kf_pa_string_stat IMedian a = true /\ pa_perform ref_kernels IMedian KStr None a = None /\
+  pa_perform ref_kernels IMean KStr g a = None /\
+  impute_spec IMedian (a_cells a) = [Some 1; Some 1; Some 1; Some 2] /\
+  py_perform_imputation IMedian None (a_cells a) = [Some 1; Some 1; Some 1; Some 2] /\
+  kf_pa_string_stat IMean z = true /\ pa_perform ref_kernels IMean KStr None z = None /\
+  impute_spec IMean (a_cells z) = a_cells z /\ py_perform_imputation IMean None (a_cells z) = a_cells z.
 Proof. exact pa_string_stat_refuted. Qed.
 Print Assumptions C19fw_pa_string_stat_refuted.
+(* the domain is decidable on the request and is exactly: string column, mean / median, the column holds a null *)
+Theorem C19fw_pa_string_stat_domain : forall m a,
+  kf_pa_string_stat m a = true <-> (a_ty a = TStr /\ (m = IMean \/ m = IMedian) /\ has_null (a_cells a) = true).
+Proof. exact kf_pa_string_stat_iff. Qed.
+Print Assumptions C19fw_pa_string_stat_domain.
+
+(* PRE-FIX behaviour (repaired finding C19-pyarrow-early-return-never-fires, 505d3c3; regression witness): on the string
+   column ['b', 'a', 'c'] WITHOUT a null the old text raised (mean plain, median grouped) where the spec / PythonDict return
+   the column; the present model returns the column and the input lies outside the present domain *)
+Theorem C19fw_pa_string_stat_old_refuted :
+  let a := mk_arr TStr [Some 2; Some 1; Some 3] in
+  let g := Some [[Some 1%Z; Some 1%Z; Some 2%Z]] in
+  has_null (a_cells a) = false /\
+  pa_perform_old ref_kernels IMean KStr None a = None /\ pa_perform_old ref_kernels IMedian KStr g a = None /\
+  impute_spec IMean (a_cells a) = a_cells a /\ py_perform_imputation IMean None (a_cells a) = a_cells a /\
+  pa_perform ref_kernels IMean KStr None a = Some a /\ pa_perform ref_kernels IMedian KStr g a = Some a /\
+  kf_pa_string_stat IMean a = false.
+Proof. exact pa_string_stat_old_refuted. Qed.
+Print Assumptions C19fw_pa_string_stat_old_refuted.
+(* ... and on NUMERIC columns the old and the present text return the same cells (why the defect only showed on strings) *)
+Theorem C19fw_pa_old_numeric_same_cells : forall K, pa_contracts K -> forall m ck a, numeric (a_ty a) = true -> wt_arr a ->
+  (forall k, m = IConst k -> const_ok (a_ty a) (mk_py ck k) = true) ->
+  exists r r', pa_perform K m ck None a = Some r /\ pa_perform_old K m ck None a = Some r' /\ a_cells r = a_cells r'.
+Proof. exact pa_perform_old_numeric_same_cells. Qed.
+Print Assumptions C19fw_pa_old_numeric_same_cells.
 
 (* PyArrow = PythonDict, by theorem (modulo the kernel contracts) *)
 Theorem C19fw_pa_equals_pydict : forall K, pa_contracts K -> forall m ck a, wt_arr a ->
